@@ -71,6 +71,8 @@ impl<R: Read> Sbr<R> {
             "fill_buf" => match self.r.fill_buf() { Ok(s) => Out::Peek(s.to_vec()), Err(x) => Out::Err(x.to_string()) },
             "utf8" => match self.r.validate_utf8_buffered() { Ok(f) => Out::Flag(f, self.r.buffer_usage()), Err(x) => e(x) },
             "usage" => Out::Info(vec![self.r.buffer_usage() as u64, self.r.has_data_in_buffer() as u64, self.r.total_read(), self.r.capacity() as u64]),
+            // with nothing buffered the inner reader stands at the logical position: bytes taken from it directly (get_mut) are the next bytes
+            "direct" => if self.r.buffer_usage() > 0 { Out::Unsupported } else { let mut b = vec![0u8; n as usize]; match self.r.get_mut().read(&mut b) { Ok(k) => { b.truncate(k); Out::Bytes(b) } Err(x) => Out::Err(x.to_string()) } },
             "consume" => {
                 // BufRead protocol: consume at most what fill_buf just showed
                 let k = match self.r.fill_buf() { Ok(s) => s.len().min(n as usize), Err(x) => return Some(Out::Err(x.to_string())) };
@@ -113,7 +115,7 @@ impl Rd for RngSeek {
             "reset" => match self.0 .0.reset() { Ok(()) => Out::Pos(0), Err(x) => Out::Err(x.to_string()) },
             "seek_in" => match self.0 .0.seek_in_range(n as u64) { Ok(p) => Out::Pos(p), Err(x) => Out::Err(x.to_string()) },
             // where the inner cursor stands, relative to the range start (get_ref)
-            "inner_pos" => Out::Pos(self.0 .0.get_ref().position().wrapping_sub(self.0 .0.start_position())),
+            "inner_pos" => { let a = self.0 .0.get_ref().position(); let b = self.0 .0.get_mut().position(); if a != b { return Out::Err("get_ref / get_mut show different inner readers".into()); } Out::Pos(a.wrapping_sub(self.0 .0.start_position())) }
             _ => seek_generic(&mut self.0 .0, name, n).unwrap_or(Out::Unsupported),
         }
     }
@@ -142,6 +144,7 @@ impl<R: Read> Rd for Zc<R> {
                 Err(x) => e(x),
             },
             "usage" => Out::Info(vec![self.0.zc_available() as u64]),
+            "direct" => if self.0.zc_available() > 0 { Out::Unsupported } else { let mut b = vec![0u8; n as usize]; match self.0.get_mut().read(&mut b) { Ok(k) => { b.truncate(k); Out::Bytes(b) } Err(x) => Out::Err(x.to_string()) } },
             _ => Out::Unsupported,
         }
     }
@@ -188,12 +191,13 @@ impl Rd for Mmi {
         }
     }
 }
-struct Multi(MultiRangeReader<Cursor<Vec<u8>>>);
+struct Multi(MultiRangeReader<Cursor<Vec<u8>>>, u64);
 impl Rd for Multi {
     fn op(&mut self, name: &str, n: i64) -> Out {
         if let Some(o) = rd_generic(&mut self.0, name, n) { return o; }
         match name {
-            "add_range" => { let (a, b) = ((n as u64) >> 20, (n as u64) & 0xF_FFFF); self.0.add_range(a, b); Out::Skipped }
+            // ranges are kept inside the file (also when a shrunk replay has less data than the case was generated for)
+            "add_range" => { let (a, b) = (((n as u64) >> 20).min(self.1), ((n as u64) & 0xF_FFFF).min(self.1)); self.0.add_range(a, b); Out::Skipped }
             "next_range" => Out::Info(vec![self.0.next_range() as u64]),
             "minfo" => { let c = self.0.current_range(); Out::Info(vec![self.0.total_length(), c.is_some() as u64, c.map(|x| x.0).unwrap_or(0), c.map(|x| x.1).unwrap_or(0)]) }
             _ => Out::Unsupported,
@@ -301,7 +305,7 @@ pub fn build(cx: &Ctx, kind: usize, data: &[u8], cfg: &[u64]) -> Result<(Box<dyn
             while i + 1 < cfg.len() { let (a, b) = (cfg[i].min(dl), cfg[i + 1].min(dl)); ranges.push((a, b)); i += 2; }
             let mut s = sp(vec![], 0, None, 0);
             s.multi = Some((data.to_vec(), ranges.clone()));
-            (Box::new(Multi(MultiRangeReader::new(Cursor::new(data.to_vec()), ranges))), s)
+            (Box::new(Multi(MultiRangeReader::new(Cursor::new(data.to_vec()), ranges), dl)), s)
         }
         9 => {
             let mut r = StreamBufferedReader::with_config(Cursor::new(data.to_vec()), sc).map_err(e)?;
@@ -366,7 +370,7 @@ fn drive_multi(rd: &mut dyn Rd, data: &[u8], ranges0: &[(u64, u64)], ops: &[Op],
                 fuzzy = name == "vec" && (b.len() as i64) < n;
             }
             ("exact", Out::Err(_)) => return Ok(()), // ran past the end (or legitimately short): position afterwards unspecified
-            ("add_range", Out::Skipped) => ranges.push(((n as u64) >> 20, (n as u64) & 0xF_FFFF)),
+            ("add_range", Out::Skipped) => ranges.push((((n as u64) >> 20).min(data.len() as u64), ((n as u64) & 0xF_FFFF).min(data.len() as u64))),
             ("next_range" | "minfo", Out::Info(_)) if fuzzy => return Ok(()),
             ("next_range", Out::Info(v)) => {
                 let want = idx + 1 < ranges.len();
@@ -424,7 +428,8 @@ pub fn drive(rd: &mut dyn Rd, spec: &Spec, ops: &[Op], obs: &mut Vec<(Op, Out)>)
         let here = |k: usize| -> &[u8] { if p >= rl { &[] } else { &r[p as usize..(p as usize + k).min(rl as usize)] } };
         match (name.as_str(), out) {
             (_, Out::Unsupported) => {}
-            ("read" | "simd" | "bulk" | "opt" | "consume" | "vec", Out::Bytes(b)) if !(spec.exact_reads && name == "read") => {
+            ("read" | "simd" | "bulk" | "opt" | "consume" | "vec" | "direct", Out::Bytes(b)) if !(spec.exact_reads && name == "read") => {
+                if name == "direct" { seeked = true; } // bytes taken behind the wrapper's back are not in its counters
                 if b.len() as i64 > n { return Err(at(format!("returned {} bytes", b.len()))); }
                 if b.len() as u64 > left || b[..] != *here(b.len()) { return Err(at(format!("returned {:?}, the stream has {:?}", &b[..b.len().min(32)], &here(b.len())[..here(b.len()).len().min(32)]))); }
                 if b.is_empty() && n > 0 && left > 0 { return Err(at("reported end of stream although bytes remain".into())); }
@@ -526,7 +531,7 @@ pub fn reader_g(cx: &mut Ctx, kind: usize, data: &[u8], gen: Option<(usize, u64,
     cx.sum.dist_max("reader_max_ops", ops.len() as u64);
     if gen.is_some() { cx.sum.dist("reader_big_input"); }
     if kind >= 6 { cx.sum.cell_status(&cell, "S-only"); }
-    for (name, _) in ops { if matches!(name.as_str(), "vec" | "utf8" | "crc" | "vcrc" | "usage" | "rinfo" | "set_total" | "inner_pos" | "add_range" | "next_range" | "minfo" | "reads") { cx.sum.dist(&format!("reader_op_{}", name)); } }
+    for (name, _) in ops { if matches!(name.as_str(), "vec" | "utf8" | "crc" | "vcrc" | "usage" | "rinfo" | "set_total" | "inner_pos" | "add_range" | "next_range" | "minfo" | "reads" | "direct") { cx.sum.dist(&format!("reader_op_{}", name)); } }
     let mut obs = vec![];
     let r = guarded(|| -> Result<(), String> {
         let (mut rd, spec) = match build(cx, kind, data, cfg) { Ok(x) => x, Err(e) if e.starts_with("skip:") => return Ok(()), Err(e) => return Err(format!("constructor failed: {}", e)) };
@@ -594,9 +599,12 @@ pub fn writer(cx: &mut Ctx, kind: usize, cfg: &[u64], ops: &[Op]) {
                     match name {
                         // single bytes through the fast path are part of the same stream
                         "byte" => { w.write_byte_fast(d.first().copied().unwrap_or(0)).map_err(|x| x.to_string())?; Ok(Some(!d.is_empty())) }
+                        // after a flush the destination is up to date: bytes written to it directly (get_mut) come next in the stream
+                        "direct" => { w.flush().map_err(|x| x.to_string())?; w.get_mut().write_all(d).map_err(|x| x.to_string())?; Ok(Some(true)) }
                         // what reached the destination plus what is still buffered is what was accepted
                         "winfo" => {
-                            if w.total_written() + w.buffer_usage() as u64 != acc.len() as u64 { return Err(format!("total_written() {} + buffer_usage() {} != {} bytes accepted", w.total_written(), w.buffer_usage(), acc.len())); }
+                            if w.get_ref().inner.len() + w.buffer_usage() != acc.len() { return Err(format!("{} bytes at the destination + buffer_usage() {} != {} bytes accepted", w.get_ref().inner.len(), w.buffer_usage(), acc.len())); }
+                            if w.total_written() > acc.len() as u64 { return Err(format!("total_written() = {} with {} bytes accepted", w.total_written(), acc.len())); }
                             if w.get_ref().inner[..] != acc[..w.get_ref().inner.len().min(acc.len())] || w.get_ref().inner.len() > acc.len() { return Err("the destination does not hold a prefix of the accepted bytes".into()); }
                             Ok(None)
                         }
@@ -624,6 +632,7 @@ pub fn writer(cx: &mut Ctx, kind: usize, cfg: &[u64], ops: &[Op]) {
                             if k > n || k > w.zc_write_available() || (n <= cap_eff && k != n) { return Err(format!("zc_ensure_write({}) = {} with {} bytes of space (capacity {})", n, k, w.zc_write_available(), cap_eff)); }
                             Ok(None)
                         }
+                        "direct" => { w.flush().map_err(|x| x.to_string())?; w.get_mut().write_all(d).map_err(|x| x.to_string())?; if w.get_ref().inner.len() < d.len() { return Err("get_ref after get_mut".into()); } Ok(Some(true)) }
                         "winfo" => { if w.zc_write_available() > cap_eff { return Err(format!("zc_write_available() = {} in a {}-byte buffer", w.zc_write_available(), cap_eff)); } Ok(None) }
                         _ => Ok(None),
                     }
@@ -752,7 +761,7 @@ fn range_writer_seek(cfg: &[u64], ops: &[Op]) -> Result<(), String> {
             "winfo" => {
                 let got = (w.current_position(), w.remaining(), w.bytes_written(), w.is_at_end(), w.start_position(), w.end_position(), w.range_length());
                 if got != (cur, end - cur, total, cur >= end, start, end, len) { return Err(at(format!("accessors (current, remaining, bytes_written, at_end, start, end, length) = {:?}, {} bytes written", got, total))); }
-                if w.get_ref().position() != cur { return Err(at(format!("the destination stands at {}", w.get_ref().position()))); }
+                if w.get_ref().position() != cur || w.get_mut().position() != cur { return Err(at(format!("the destination stands at {}", w.get_ref().position()))); }
             }
             _ => {}
         }
@@ -915,15 +924,15 @@ pub fn gen_reader_case(r: &mut Rng, kind: usize) -> (Vec<u8>, Vec<u64>, Vec<Op>)
     }
     let names: &[&str] = match (kind, ext) {
         (0, false) => &["read", "read", "read", "byte", "slice", "ensure", "simd", "bulk", "fill_buf", "consume", "exact", "seek_start", "seek_cur", "seek_cur", "seek_end"],
-        (0, true) => &["read", "read", "read", "byte", "slice", "ensure", "simd", "bulk", "fill_buf", "consume", "exact", "seek_start", "seek_cur", "seek_end", "vec", "vec", "utf8", "utf8", "usage"],
+        (0, true) => &["read", "read", "read", "byte", "slice", "ensure", "simd", "bulk", "fill_buf", "consume", "exact", "seek_start", "seek_cur", "seek_end", "vec", "vec", "utf8", "utf8", "usage", "direct"],
         (1 | 10, false) => &["read", "read", "read", "byte", "slice", "ensure", "simd", "bulk", "fill_buf", "consume", "exact"],
-        (1 | 10, true) => &["read", "read", "read", "byte", "slice", "ensure", "simd", "bulk", "fill_buf", "consume", "exact", "vec", "vec", "utf8", "utf8", "usage"],
+        (1 | 10, true) => &["read", "read", "read", "byte", "slice", "ensure", "simd", "bulk", "fill_buf", "consume", "exact", "vec", "vec", "utf8", "utf8", "usage", "direct"],
         (2, false) => &["read", "read", "read", "skip", "byte", "slice", "pos", "exact", "seek_start", "seek_cur", "seek_end", "reset", "seek_in"],
         (2, true) => &["read", "read", "read", "skip", "byte", "slice", "pos", "exact", "seek_start", "seek_cur", "seek_end", "reset", "seek_in", "vec", "rinfo", "rinfo", "set_total", "inner_pos", "inner_pos"],
         (3 | 9, false) => &["read", "read", "read", "skip", "byte", "slice", "pos", "exact"],
         (3 | 9, true) => &["read", "read", "read", "skip", "byte", "slice", "pos", "exact", "vec", "rinfo", "rinfo", "set_total"],
         (4 | 5, false) => &["read", "read", "read", "peek", "skip", "opt", "ensure", "slice", "exact"],
-        (4 | 5, true) => &["read", "read", "read", "peek", "skip", "opt", "ensure", "slice", "exact", "vec", "utf8", "utf8", "crc", "vcrc", "usage"],
+        (4 | 5, true) => &["read", "read", "read", "peek", "skip", "opt", "ensure", "slice", "exact", "vec", "utf8", "utf8", "crc", "vcrc", "usage", "direct"],
         (6, false) => &["read", "read", "peek", "slice", "skip", "seek_start", "pos", "ensure", "exact"],
         (6, true) => &["read", "read", "peek", "slice", "skip", "seek_start", "pos", "ensure", "exact", "vec", "usage", "usage"],
         (7, false) => &["read", "slice", "zslice", "peek", "zpeek", "skip", "seek_start", "byte", "pos"],
@@ -1018,9 +1027,9 @@ pub fn gen_writer_case(r: &mut Rng, kind: usize) -> (Vec<u64>, Vec<Op>) {
     let ext = r.chance(1, 2);
     let names: &[&str] = match (kind, ext) {
         (0 | 1, false) => &["write", "write", "write_all", "byte", "flush"],
-        (0 | 1, true) => &["write", "write", "write_all", "byte", "flush", "vecw", "vecw", "winfo"],
+        (0 | 1, true) => &["write", "write", "write_all", "byte", "flush", "vecw", "vecw", "winfo", "direct"],
         (2 | 3, false) => &["write", "write", "write_all", "zc", "flush"],
-        (2 | 3, true) => &["write", "write", "write_all", "zc", "flush", "vecw", "vecw", "zc_ensure", "winfo"],
+        (2 | 3, true) => &["write", "write", "write_all", "zc", "flush", "vecw", "vecw", "zc_ensure", "winfo", "direct"],
         (4, false) => &["write", "write", "flush"],
         (4, true) => &["write", "write", "flush", "vecw"],
         (5, _) => &["write", "write", "write_all", "byte", "flush", "vecw", "seek_start", "seek_cur", "seek_cur", "seek_end"],
